@@ -172,6 +172,27 @@ theorem tree_history_linked_layers_verified {D : Type} [DecidableEq D] (H : Byte
     intro n m hn
     exact (this n m hn).2
 
+/-! ### The decisions at the start of a layer -/
+
+theorem begin_table_complete :
+    beginTable.map (fun r => (r.1, r.2.1)) =
+      ([-1, 0, 1, 2, 3] : List Int).flatMap (fun fl => [0, 1, 2, 3].map fun sz => (fl, sz)) := by decide
+
+/-- the real `c.Get` size shortcut and `c.Chunked` (file-less pre-validated Chunker when a file of
+    that size exists, else the blob file is created / opened in place) decide as the model's
+    `shortcut`, `prevalidated`, `ensureFile` on every blob file length (none, 0…3) × manifest size 0…3
+    — incl. the empty-file case (`c.Get` refuses it, `Chunked` pre-validates it) -/
+theorem beginLayer_matches_model :
+    beginTable.all (fun r =>
+      let d : Bytes := [7]
+      let c : Cache Bytes := { (Cache.empty : Cache Bytes) with
+        files := fun x => if x = d then (if r.1 < 0 then none else some (zeros r.1.toNat)) else none }
+      let l : Layer Bytes := ⟨d, r.2.1⟩
+      let v := (treeCfg 2 none).variant
+      (shortcut c l == r.2.2.1) &&
+      (r.2.2.1 || (prevalidated c l == r.2.2.2.1)) &&
+      (((if shortcut c l || prevalidated c l then c else ensureFile v c d).files d).isSome == r.2.2.2.2)) = true := by decide
+
 /-! ### `verifyLayer`, the last check before `Link` -/
 
 def vLayer : Layer Bytes := ⟨[97, 98, 99, 100, 101, 102], 6⟩        -- "abcdef" (digest = pre-image)
